@@ -5,6 +5,8 @@
 //	R2  every call net.ListenUDP(...)                  -> simhook.ListenUDP(...)
 //	R3  every `range` over a map-typed expression      -> seed-ordered iteration
 //	R6  queue-capacity constants used as call args     -> simhook.Knob("NAME", NAME)
+//	R8  net.ResolveUDPAddr / net.ResolveIPAddr          -> simhook.Resolve… (IP literals resolve as
+//	    in package net; host names are answered by the simulator's resolver, never by DNS)
 //	R7  `select` over receive cases only (no default)  -> the simulator chooses which READY
 //	    case runs when several are ready (the others' channels are nil for that round)
 //
@@ -69,7 +71,7 @@ type edit struct {
 	text       string
 }
 
-type counts struct{ R1, R2, R3, R6, R7 int }
+type counts struct{ R1, R2, R3, R6, R7, R8 int }
 
 func die(f string, a ...any) {
 	fmt.Fprintf(os.Stderr, "seamgen: "+f+"\n", a...)
@@ -171,6 +173,7 @@ func main() {
 			total.R3 += c.R3
 			total.R6 += c.R6
 			total.R7 += c.R7
+			total.R8 += c.R8
 			sites = append(sites, ss...)
 			if len(edits) == 0 {
 				continue
@@ -191,6 +194,9 @@ func main() {
 	}
 	if total.R2 == 0 {
 		die("rule R2 matched nothing (net.ListenUDP)")
+	}
+	if total.R8 == 0 {
+		die("rule R8 matched nothing (net.ResolveUDPAddr / net.ResolveIPAddr)")
 	}
 	if total.R3 == 0 {
 		die("rule R3 matched nothing (range over map)")
@@ -245,11 +251,11 @@ func main() {
 	}
 	sort.Strings(sites)
 	rb, _ := json.MarshalIndent(map[string]any{
-		"R1": total.R1, "R2": total.R2, "R3": total.R3, "R6": total.R6, "R7": total.R7, "map_range_and_select_sites": sites,
+		"R1": total.R1, "R2": total.R2, "R3": total.R3, "R6": total.R6, "R7": total.R7, "R8": total.R8, "map_range_and_select_sites": sites,
 	}, "", " ")
 	_ = os.WriteFile(filepath.Join(*out, "seamgen.json"), rb, 0o644)
 	if !*quiet {
-		fmt.Printf("seamgen: R1=%d R2=%d R3=%d R6=%d R7=%d files=%d\n", total.R1, total.R2, total.R3, total.R6, total.R7, len(overlay))
+		fmt.Printf("seamgen: R1=%d R2=%d R3=%d R6=%d R7=%d R8=%d files=%d\n", total.R1, total.R2, total.R3, total.R6, total.R7, total.R8, len(overlay))
 	}
 }
 
@@ -364,6 +370,12 @@ func rewriteFile(fset *token.FileSet, f *ast.File, src []byte, info *types.Info,
 			if id, ok := isNetSel(x.Fun, "ListenUDP", info); ok {
 				edits = append(edits, edit{off(id.Pos()), off(id.End()), "simhook"})
 				c.R2++
+			}
+			for _, fn := range []string{"ResolveUDPAddr", "ResolveIPAddr"} {
+				if id, ok := isNetSel(x.Fun, fn, info); ok {
+					edits = append(edits, edit{off(id.Pos()), off(id.End()), "simhook"})
+					c.R8++
+				}
 			}
 			for _, a := range x.Args {
 				id, ok := a.(*ast.Ident)
